@@ -22,6 +22,7 @@ context), disabled (output.write / output.to_csv / histogram.to_graph False), lo
 selection), already-written (Write: data == the path it would write), written-elsewhere (Write: data ==
 context.output.filepath produced by a Write with another output directory; a scope of its own)."""
 import atexit
+import copy
 import io
 import itertools
 import os
@@ -35,6 +36,7 @@ from bounded.common import Run, watchdog, Timeout
 
 import lena.core
 import lena.flow
+import lena.math
 import lena.structures
 import lena.output
 from lena.flow import get_data, get_context
@@ -217,6 +219,49 @@ class TwoResults(object):
             self.n += 1
             yield v
             yield (get_data(v) * 10, {"a": 1, "second": self.n})
+
+
+class Chunk(object):
+    """Run element whose results depend on its WHOLE flow and on its history: every value is numbered within the current
+    `run` call (i) and over the life of the element object (n), the calls are numbered (call); it yields two results per
+    value and one closing result per `run` call telling how many values that call received.  Any regrouping of the
+    selected values into other `run` calls (several at once, all at the end, a re-created element) changes its output.
+    pairs=False: results are bare tuples; pairs=True: (data, context) pairs (what MapGroup and MapBins expect)."""
+
+    def __init__(self, pairs=False):
+        self.pairs = pairs
+        self.n = 0
+        self.calls = 0
+
+    def run(self, flow):
+        self.calls += 1
+        call, i = self.calls, 0
+        for v in flow:
+            self.n += 1
+            info = {"i": i, "n": self.n, "call": call}
+            if self.pairs:
+                c = copy.deepcopy(get_context(v))
+                c["chunk"] = info
+                yield (get_data(v), c)
+                yield ((get_data(v), "again"), {"chunk": dict(info), "again": True})
+            else:
+                yield ("item", v, i, self.n, call)
+                yield ("again", v, i)
+            i += 1
+        if self.pairs:
+            yield (("end", i), {"chunk": {"received": i, "call": call}})
+        else:
+            yield ("end", i, call)
+
+
+class RunningTotal(object):
+    """Run element without any state of its own: the total of the data seen so far IN THIS `run` call"""
+
+    def run(self, flow):
+        tot = 0
+        for v in flow:
+            tot += get_data(v)
+            yield (tot, get_context(v))
 
 
 def hist_num(k):
@@ -510,6 +555,48 @@ def configs():
                      [("group", group), ("group_changed", lambda k: ([k], {"group": [{"output": {"changed": False}, "k": k}]}))], mg_unsel))
     cs.append(Config("MapGroup(two results,map_scalars=False)", "MapGroup",
                      lambda: MapGroup(TwoResults(), map_scalars=False), [("group", group)], mg_unsel))
+
+    # ---- the elements whose selected values go through an INNER SEQUENCE (RunIf, MapGroup, MapBins), with inner
+    #      sequences that depend on their whole flow (numbering / totals / slices within one `run` call), keep state
+    #      over calls and yield several results: the results for the selected values are the same whether the selected
+    #      values are adjacent in the flow or separated by unselected ones (RunIf.run: "feeds values to the sequence one
+    #      by one"), so every regrouping of the selected values into other `run` calls of the inner sequence is visible
+    int_sel = [("int", lambda k: k + 1), ("int_ctx", lambda k: (k + 1, {"tag": k})), ("int_big", lambda k: 100 * (k + 1))]
+    int_unsel = generic(exclude=("int", "zero", "false", "pair_empty_ctx")) + [
+        ("float_pair", "lookalike", lambda k: (k + 0.5, {"tag": k, "int": 1})),
+        ("digits", "lookalike", lambda k: "%d" % k),
+        ("int_in_tuple", "lookalike", lambda k: ((k,), {"tag": k}))]
+    cs.append(Config("RunIf(int,Chunk)", "RunIf", lambda: RunIf(int, Chunk()), int_sel, int_unsel))
+    cs.append(Config("RunIf(int,Sum)", "RunIf", lambda: RunIf(int, lena.math.Sum()), int_sel, int_unsel))
+    cs.append(Config("RunIf(int,Slice(1))", "RunIf", lambda: RunIf(int, lena.flow.Slice(1)), int_sel, int_unsel))
+    cs.append(Config("RunIf(int,Slice(1,None))", "RunIf", lambda: RunIf(int, lena.flow.Slice(1, None)), int_sel, int_unsel))
+    cs.append(Config("RunIf(int,RunningTotal,Chunk)", "RunIf", lambda: RunIf(int, RunningTotal(), Chunk()), int_sel, int_unsel))
+    cs.append(Config("RunIf('sel',Sequence(Chunk pairs,Count))", "RunIf",
+                     lambda: RunIf("sel", lena.core.Sequence(Chunk(pairs=True), lena.flow.Count())),
+                     [("sel", lambda k: (k + 1, {"sel": 1, "tag": k})), ("sel_deep", lambda k: (k + 1.5, {"sel": {"deep": k}}))],
+                     generic() + [("near_key", "lookalike", lambda k: (k, {"selx": 1, "unsel": {"sel": 1}})),
+                                  ("bare_sel_string", "lookalike", lambda k: "sel")]))
+
+    def group_n(n):
+        return lambda k: ([k + i for i in range(n)],
+                          {"group": [{"a": 1, "c": k, "item": i} for i in range(n)], "common": k, "a": 1})
+    mg_sel = [("group2", group_n(2)), ("group3", group_n(3)), ("group1", group_n(1))]
+    cs.append(Config("MapGroup(Chunk pairs,map_scalars=False)", "MapGroup",
+                     lambda: MapGroup(Chunk(pairs=True), map_scalars=False), mg_sel, mg_unsel))
+    cs.append(Config("MapGroup(RunningTotal,Count,map_scalars=False)", "MapGroup",
+                     lambda: MapGroup(RunningTotal(), lena.flow.Count(), map_scalars=False), mg_sel, mg_unsel))
+
+    mb_sel = [("hist_num", lambda k: hist_num(k)), ("hist_num_ctx", lambda k: (hist_num(k), {"tag": k})),
+              ("hist2d_num", lambda k: (histogram([[0, 1, 2], [0, 1]], [[k], [k + 5]]), {"tag": k}))]
+    mb_unsel = generic() + [("hist_tuples", "lookalike", lambda k: hist_tuples(k)),
+                            ("hist_float_ctx", "lookalike", lambda k: (histogram([0, 1, 2], [k + 0.5, 1.5]), {"tag": k})),
+                            ("graph", "lookalike", lambda k: (graph([[0, 1], [k, k + 1]]), {"tag": k}))]
+    cs.append(Config("MapBins(Chunk pairs,keep_ctx)", "MapBins",
+                     lambda: lena.structures.MapBins(Chunk(pairs=True), select_bins=int, drop_bins_context=False),
+                     mb_sel, mb_unsel))
+    cs.append(Config("MapBins(Sequence(RunningTotal,Chunk pairs))", "MapBins",
+                     lambda: lena.structures.MapBins(lena.core.Sequence(RunningTotal(), Chunk(pairs=True)), select_bins=int),
+                     mb_sel, mb_unsel))
     return cs
 
 
